@@ -49,9 +49,11 @@ def wsgiErr? : Sexp → Option (Option (Nat × Wsgi.Err))
   | _ => none
 
 def wsgiAppX? : Sexp → Option Wsgi.AppX
+  | .list [st, hs, cl, ps, rv, .atom "crash"] => do
+    some ⟨← wsgiApp? (.list [st, hs, cl, ps, rv]), none, true⟩
   | .list [st, hs, cl, ps, rv, er] => do
-    some ⟨← wsgiApp? (.list [st, hs, cl, ps, rv]), ← wsgiErr? er⟩
-  | a => do some ⟨← wsgiApp? a, none⟩
+    some ⟨← wsgiApp? (.list [st, hs, cl, ps, rv]), ← wsgiErr? er, false⟩
+  | a => do some ⟨← wsgiApp? a, none, false⟩
 
 def c18Conn : Sexp → Option Sexp
   | .list [eof, .list rs, .list as] => do
